@@ -18,11 +18,16 @@ C24  1. TLC checks that the mechanism model of ReadMIMEHeaderAndKeys/fixTransfer
 Verdicts come only from what the real code did; model-vs-code differences inside Layer P are MODEL-DRIFT.
 """
 import json
+import os
 import time
 
 from lib import vlib
 
 SPEC = "Http1"
+
+# TLC computes initial states on the JVM's main thread, whose stack size the java launcher fixes before
+# JAVA_TOOL_OPTIONS (-Xss64m, set by vlib) is read; JDK_JAVA_OPTIONS is read by the launcher itself.
+os.environ.setdefault("JDK_JAVA_OPTIONS", "-Xss64m")
 
 # ----------------------------------------------------------------------------- C23
 _CH = {"0": ("H", 0, 0), "1": ("H", 1, 0), "2": ("H", 2, 0), "a": ("H", 10, 1), "A": ("H", 10, 2),
@@ -134,7 +139,7 @@ def check_c23(ctx):
                        "seeded alternatives) and decoded by the real chunkedReader raw and via ReadRequest/Body under "
                        "several buffer/split/read sizes; (c) write patterns through the real chunkedWriter, wire "
                        "validated by TLC and round-tripped. distinct = distinct (class string, trailer) inputs.")
-    ed = {"N": 9, "T": 2, "F": 2, "ND": 3} if q else {"N": 11, "T": 2, "F": 2, "ND": 3}
+    ed = {"N": 9, "T": 2, "F": 2, "ND": 3} if q else {"N": 11, "T": 1, "F": 2, "ND": 3}
     sd = {"K": 2, "PAIRS": "FALSE"} if q else {"K": 2, "PAIRS": "TRUE"}
     ctx.cov["constants"]["EnumChunked"] = ed
     ctx.cov["constants"]["StructChunked"] = sd
